@@ -375,7 +375,39 @@ def spec_expected(info, ref, rootsets, ast, outmode):
             elif not st["oo"]:
                 sep = st["sep"] if st["sep"] is not None else ","
                 exp = sep.join((e[0] if st["lo"] else ("-1" if e[1] == "4294967295" else e[1])) for e in ents) + "\n"
+    elif om == "H" and outmode[2]:
+        exp = hier_spec(info, outmode[2], cs1, st["lo"], st["sep"] if st["sep"] is not None else " ") + "\n"
     return exp, keyp
+
+
+def long_type_name(o):
+    """hwloc_obj_type_snprintf(LONG_NAMES) for the normal types, from the dump"""
+    ty = o["ty"]
+    at = dict(x.split(":", 1) for x in o["at"].split(",") if ":" in x) if o["at"] not in ("-", "") else {}
+    if 5 <= ty <= 12:
+        return "L%s%sCache" % (at.get("cdepth", "?"), {"0": "", "1": "d", "2": "i"}.get(at.get("ctype", "0"), "unknown"))
+    if ty == 13:
+        return "Group" + (at["gdepth"] if at.get("gdepth", "4294967295") != "4294967295" else "")
+    return G.TYPE_NAMES[ty]
+
+
+def hier_spec(info, depths, cs, logical, sep):
+    """-H t1.t2...: one entry per object of the LAST type that intersects the set, in tree order; each entry names its
+    ancestor of every listed type, numbered among the objects of that type below the previous one (or by OS index)"""
+    def walk(level, parent_cs, sub, prefix):
+        res = []
+        objs = [o for o in info.level(depths[level]) if o["cs"] is not None and o["cs"].intersects(parent_cs)]
+        for k, o in enumerate(objs):
+            if not sub.intersects(o["cs"]):
+                continue
+            idx = k if logical else o["os"]
+            name = prefix + ("." if level else "") + "%s:%s" % (long_type_name(o), "-1" if idx == 4294967295 else idx)
+            if level == len(depths) - 1:
+                res.append(name)
+            else:
+                res += walk(level + 1, o["cs"], sub.inter(o["cs"]), name)
+        return res
+    return sep.join(walk(0, info.root["cs"], cs, ""))
 
 
 WAITING = "Waiting for locations to process on stdin...\n"
@@ -638,9 +670,11 @@ def check_calc_topology(ctx, kind, arg, ncmd, nmal, rng, corpus_cmds=(), nstdin=
                     for a in (it[1:] if it[0] == "opt" else [G.loc_text(it)])]
             base = [("--pi" if a == "-p" else "--li" if a == "-l" else "--ni" if a == "-n" else a) for a in base]
             r = rng.random()
-            if r < 0.34:
+            if cmd["out"][0] == "H" or r < 0.15:
+                cross_H(ctx, tool, ref, info, rng, kind, arg, base)
+            elif r < 0.40:
                 cross_largest(ctx, tool, ref, kind, arg, base)
-            elif r < 0.67:
+            elif r < 0.70:
                 d, ty = rng.choice(info.output_levels())
                 cross_N_I(ctx, tool, kind, arg, base, G.type_spelling(rng, info, d, ty))
             else:
@@ -738,7 +772,8 @@ def args_to_ast(info, ref, args):
                     return None
                 out = ("I" if a in ("-I", "--intersect") else "N", v, lv[0])
             elif a in ("-H", "--hierarchical"):
-                out = ("H", v, [])
+                lvs = [level_of(x) for x in v.split(".")]
+                out = ("H", v, [l[0] for l in lvs] if all(l and l[0] >= 0 for l in lvs) else [])
             i += 2
             continue
         if a in OPT_PLAIN:
@@ -815,6 +850,56 @@ def cross_largest(ctx, tool, ref, kind, arg, base):
         ctx.violation("cross:largest:" + "-".join(esc(x) for x in base)[:100],
                       "--largest output fed back does not give the same set: %r -> %r -> %r (direct %r)" % (base, out1, back, out0),
                       replay_text(kind, arg, "hwloc-calc", base + ["--largest"]))
+
+
+def cross_H(ctx, tool, ref, info, rng, kind, arg, base):
+    """-H t1...tk describes the set: its entries, given back as locations, name exactly the objects of type tk that
+    intersect the set, and there are as many entries as -N tk counts"""
+    normal = sorted(set(x for x in info.usable_levels() if x[0] >= 0))
+    pick = sorted(rng.sample(normal, min(rng.choice([1, 2, 2, 3]), len(normal))))
+    if any(info.tdepth.get(ty, -1) != d for d, ty in pick):
+        return                                   # a type with several depths: named by depth numbers, not fed back
+    spec = ".".join(rng.choice(G.SPELL.get(ty, [G.TYPE_NAMES[ty]])) for d, ty in pick)
+    last = rng.choice(G.SPELL.get(pick[-1][1], [G.TYPE_NAMES[pick[-1][1]]]))
+    # physical indexes only where every listed level has OS indexes (caches and groups print -1)
+    # physical indexes only where every listed level has OS indexes (caches and groups print -1) that are unique on
+    # the level (hwloc(7): with physical indexes the first object matching the index is used)
+    phys = rng.random() < 0.3 and all(o["os"] != 4294967295 for d, _ in pick for o in info.level(d)) \
+        and all(len(set(o["os"] for o in info.level(d))) == len(info.level(d)) for d, _ in pick)
+    rch, outh, _ = tool(base + ["-H", spec] + (["--po"] if phys else []))
+    rcn, outn, _ = tool(base + ["-N", last])
+    rci, outi, _ = tool(base + ["-I", last])
+    if rch != 0 or rcn != 0 or rci != 0:
+        ctx.bump("cross-H-nonzero")
+        return
+    ctx.bump("cross-H")
+    toks = outh.split()
+    rtxt = replay_text(kind, arg, "hwloc-calc", base + ["-H", spec] + (["--po"] if phys else []), "stdout: %s\n" % esc(outh))
+    try:
+        n = int(outn.strip())
+    except ValueError:
+        return
+    if len(toks) != n:
+        ctx.violation("cross:H-count:" + "-".join(esc(x) for x in base + ["-H", spec])[:100],
+                      "-H %s prints %d entries (%r) but -N %s counts %d" % (spec, len(toks), outh[:200], last, n), rtxt)
+        return
+    if not toks:
+        return
+    if info.has_cpuless():
+        # -H numbers the objects that have CPUs; a location index also counts CPU-less objects whose nodeset
+        # intersects the parent's: the two numberings differ on such topologies (recorded, not required)
+        ctx.bump("cross-H-feedback-skipped-cpuless-topology")
+        return
+    # the entries name the objects -I lists: their union, as locations, is the union of those objects
+    strip = [a for a in base if not a.startswith("-") and a not in G.FORMATS]
+    inopts = [a for a in base if a not in strip and a not in ("--pi", "--li")]
+    rcb, outb, _ = tool(["-q", "--pi" if phys else "--li"] + toks)
+    lidx = [x for x in outi.strip().split(",") if x != ""]
+    rce, oute, _ = tool(["-q", "--li"] + ["%s:%s" % (last, i) for i in lidx])
+    if rcb != 0 or rce != 0 or outb != oute:
+        ctx.violation("cross:H-feedback:" + "-".join(esc(x) for x in base + ["-H", spec])[:100],
+                      "the entries of -H %s (%r) given back as locations give %r; the %s objects -I lists (%r) give %r"
+                      % (spec, outh[:200], outb, last, outi.strip(), oute), rtxt)
 
 
 def cross_N_I(ctx, tool, kind, arg, base, ty):
@@ -1523,7 +1608,7 @@ def check_distrib(ctx, kind, arg, tag, rng):
             sets = [None if s == "huge" else s for s in sets]
             roots_cs = union_all([o["cs"] for o in info.level(d_from)])
             leaf_depth = min(d_to, info.depth - 1)
-            nleaves = len(info.levels.get(leaf_depth, []))
+            nleaves = len([o for o in info.level(leaf_depth) if o["cs"].intersects(roots_cs)])
             what = None
             if rc != 0:
                 what = "exit status %d" % rc
@@ -1737,6 +1822,13 @@ def check(run, replay=None):
         for r, s in [("0xff", "group:2 pack:2 core:2 pu:2"), ("0xf/1", "group:2 pack:2 core:2 pu:2"), ("0x3", "pack:2 core:2 pu:2"),
                      ("0xf0", "group:2 group:2 pack:2 pu:2"), ("0x33/1", "pack:2 [numa] l2:2 core:1 pu:2"), ("0xf", "numa:2 group:2 core:2 pu:1")]:
             topos.append(("synthetic@" + r, s))
+        # interleaved / shuffled OS numbering on the PU (and hence Core) level: tree order is not cpuset order
+        for s in ["pack:2 core:4 pu:2(indexes=0,8,1,9,2,10,3,11,4,12,5,13,6,14,7,15)", "pack:2 core:2 pu:2(indexes=0,4,2,6,1,5,3,7)",
+                  "pack:4 pu:2(indexes=4*2:2*2)", "numa:2 core:2 pu:2(indexes=7,0,6,1,5,2,4,3)"]:
+            topos.append(("synthetic", s))
+        il = os.path.join(C.REPO, "tests/hwloc/xml/16em64t-4s2c2t.xml")
+        if os.path.exists(il):
+            topos.append(("xml", il))
         # memory-side caches: in front of some but not all nodes of an attach point, several nodes per attach point,
         # CPU-less nodes behind a cache (restrict), and the XML of the test suite
         for s in ["pack:2 [numa(memorysidecachesize=268435456)] [numa] core:2 pu:2", "pack:2 [numa(memorysidecachesize=1048576)] core:2 pu:2",
